@@ -36,6 +36,7 @@ TRUSTED_BASE = [
     'futures completed by the schedule)',
 ]
 ASSUMPTIONS = [
+    'readers may be cancelled while they WAIT in the read guard (modelled: ReadCancel); a reader already at the driver is not; '
     'submitters of a write are never cancelled while they wait for their ticket (true of every call site: API requests, '
     'fire_and_forget tasks, the eval loop, which is cancelled after the write loop)',
     'the write loop task is not cancelled (port removal is outside the statement; see notes/C14.md, finding 2)',
@@ -47,7 +48,7 @@ ASSUMPTIONS = [
 WORKER = 'harness.props.c14_worker'
 CAPS = [4, 1024]
 KINDS = {1: 'read-overlap', 2: 'write-overlap', 4: 'write-order', 8: 'drop-rule', 16: 'drop-notification',
-         32: 'write-result', 64: 'ticket-never-answered'}
+         32: 'write-result', 64: 'ticket-never-answered', 128: 'submitter-told-wrongly'}
 
 
 # ---------------------------------------------------------------------------------------------------------------------
@@ -97,8 +98,16 @@ def gen_schedule(rng, sid):
             k = rng.randint(2, 6)
             cmds.append(['SetSequence', 'w', [val() for _ in range(k)], [rng.choice([0, 5, 10, 40]) for _ in range(k)],
                          rng.choice([1, 1, 2])])
-        elif r < 0.93:
+        elif r < 0.92:
             cmds.append(['Reset', rng.choice(['w', 'w', 'e', 's'])])
+            if rng.random() < 0.5:
+                if rng.random() < 0.5:
+                    cmds.append(['Advance', rng.choice([1, 5, 1000])])
+                cmds.append(['CancelWaitingReader', cmds[-1][1] if cmds[-1][0] == 'Reset' else cmds[-2][1]])
+                if rng.random() < 0.6:
+                    cmds.append(rng.choice([['Reset', cmds[-1][1]], ['Tick']]))
+        elif r < 0.93:
+            cmds.append(['CancelWaitingReader', rng.choice(['w', 'e', 's'])])
         elif r < 0.96:
             cmds.append(['SetAttr', rng.choice(['w', 'e', 's']), val()])
         elif not loaded:
@@ -110,6 +119,7 @@ def gen_schedule(rng, sid):
 SMALL_PORTS = {'w': {'writable': True, 'rlat': None, 'wlat': None}}
 SMALL_A = [['ApiWrite', 'w', None], ['Tick'], ['CompleteRead', 'w', 'val'], ['CompleteWrite', 'w', 'ok']]
 SMALL_B = SMALL_A + [['Reset', 'w']]
+SMALL_C = SMALL_B + [['CancelWaitingReader', 'w']]
 
 
 def enum_small(alphabet, maxlen, cap, first_id):
@@ -210,8 +220,35 @@ def spec_code(cap, drained, tr):
         dres.setdefault(t, r)
     if not all(r == 'qf' or dres.get(t) == r for t, r in delivers):
         code += 32
-    if drained and not all(t in dt for _, t in submitted):
+    told_t = [e[1] for e in tr if e[0] == 'Told']
+    if drained and not all(t in dt and t in told_t for _, t in submitted):
         code += 64
+    # the submitter's level, judged on the prefix before each answer
+    ok = True
+    fail_p, took_p, wend_p = [], [], []
+    for e in tr:
+        if e[0] == 'WriteSubmit' and e[3] is not None:
+            fail_p.append(e[3])
+        elif e[0] == 'WriteTake':
+            took_p.append(e[2])
+        elif e[0] == 'WriteEnd':
+            wend_p.append(e[1])
+        elif e[0] in ('Told', 'ApiTold'):
+            res_p = {}
+            for t, r in zip(took_p, wend_p):
+                res_p.setdefault(t, r)
+            t = e[1]
+            if e[0] == 'Told':
+                if e[2] == 'qf':
+                    ok = ok and t in fail_p
+                else:
+                    ok = ok and t not in fail_p and res_p.get(t) == e[2]
+            elif e[2]:
+                ok = ok and t not in fail_p and res_p.get(t) == 'ok'
+            else:
+                ok = ok and (t in fail_p or res_p.get(t) == 'exc')
+    if not ok:
+        code += 128
     return code
 
 
@@ -290,6 +327,12 @@ def event_lit(e):
         return 'DirectEnd %s' % WRES[e[1]]
     if n == 'Snap':
         return 'Snap %s %s %s' % (blit(e[1]), blit(e[2]), nlit(e[3]))
+    if n == 'ReadCancel':
+        return 'ReadCancel %s' % SRC[e[1]]
+    if n == 'Told':
+        return 'Told %s %s' % (nlit(e[1]), TRES[e[2]])
+    if n == 'ApiTold':
+        return 'ApiTold %s %s' % (nlit(e[1]), blit(e[2]))
     raise Unrepresentable('event %r' % (e,))
 
 
@@ -362,6 +405,8 @@ def evaluate(ctx, res, schedules, runs, stats, tag):
                     stats.bump('event:overflow-drop')
                 if e[0] != 'Snap':
                     stats.bump('event:' + e[0])
+                if e[0] == 'Told':
+                    stats.bump('told:%s:%s' % (e[3], e[2]))
         for c in sc['cmds']:
             stats.bump('cmd:' + c[0])
         stats.bump('cap:%d' % sc['cap'])
@@ -480,8 +525,10 @@ def report(ctx, res, bad, seen):
     for sc, pid, code, tr in bad:
         bit = min(b for b in KINDS if code & b)
         kind = KINDS[bit]
-        site = overlap_site(tr) if kind == 'write-overlap' else ('read_transformed_value' if kind == 'read-overlap'
-                                                                 else '_write_value_queued / _write_value_loop')
+        site = overlap_site(tr) if kind == 'write-overlap' else (
+            'read_transformed_value' if kind == 'read-overlap' else
+            'transform_and_write_value / patch_port_value' if kind == 'submitter-told-wrongly' else
+            '_write_value_queued / _write_value_loop')
         key = {'kind': kind, 'site': site}
         tag = json.dumps(key, sort_keys=True)
         if tag in seen:
@@ -499,7 +546,8 @@ def report(ctx, res, bad, seen):
                          'log': [g for g in run.get('glog', []) if g[3] != 'Snap'][:200]},
             'expected': 'no two driver reads and no two driver writes of a port in flight at once; values reach the driver in '
                         'submission order; a ticket fails with QueueFull only when the queue holds `cap` entries, oldest first, '
-                        'and its submitter is told',
+                        'and its submitter (API request, expression evaluation, sequence step) is told so; a submitter told OK '
+                        'had its value started at the driver',
         })
 
 
@@ -544,7 +592,8 @@ def finish(res, stats, seen):
 def check(ctx, res):
     res['rule'] = (
         'schedule = queue capacity (4 in half of the runs, else 1024) + driver latencies per port (manual / 0-70 virtual ms) + '
-        'commands Tick, Advance, SetSource, CompleteRead, CompleteWrite, ApiWrite (bursts of up to 7), SetSequence, SetAttr, Reset, Load '
+        'commands Tick, Advance, SetSource, CompleteRead, CompleteWrite, ApiWrite (bursts of up to 7), SetSequence, SetAttr, Reset, '
+        'CancelWaitingReader, Load '
         'on ports s (source), w (writable), e (expression over s, w), pl (persisted, loaded at run time); evaluations = '
         'schedules run on the real code, each giving one trace per port. non-trivial = some port has a driver call suspended '
         'while another step of that port happens, or its queue overflows; distinct = distinct (capacity, latencies, commands)'
@@ -566,15 +615,15 @@ def check(ctx, res):
     if corpus:
         batches(ctx, res, corpus, stats, seen, 'corpus')
     # exhaustive small scope on the one-port template (capacity 2)
-    small = enum_small(SMALL_B, ctx.n(4, 6), 2, 0) if ctx.tier == 'quick' else (
-        enum_small(SMALL_A, 8, 2, 0) + enum_small(SMALL_B, 6, 2, 100000))
+    small = enum_small(SMALL_C, 4, 2, 0) if ctx.tier == 'quick' else (
+        enum_small(SMALL_A, 8, 2, 0) + enum_small(SMALL_B, 6, 2, 100000) + enum_small(SMALL_C, 5, 2, 200000))
     batches(ctx, res, small, stats, seen, 'small', chunk=4000)
     res['exhaustive'] = True
     res['extra']['exhaustive_scope'] = (
         'all command sequences of length <= %s over {ApiWrite w, Tick, CompleteRead w, CompleteWrite w%s} on one writable port '
         'with manual latencies and capacity 2: %d schedules' % (
-            ('4', ', Reset w', len(small)) if ctx.tier == 'quick' else
-            ('8 (and <= 6 with Reset w added)', '', len(small))))
+            ('4', ', Reset w, CancelWaitingReader w', len(small)) if ctx.tier == 'quick' else
+            ('8 (<= 6 with Reset w added, <= 5 with Reset w and CancelWaitingReader w added)', '', len(small))))
     n = ctx.n(400, 20000)
     scheds = [gen_schedule(ctx.rng, i) for i in range(n)]
     batches(ctx, res, scheds, stats, seen, 'rand')
@@ -598,8 +647,10 @@ LEVEL_TEXT = (
     'with drop-oldest-and-notify, single write loop, direct write of load_from_data), for every accepted trace of any '
     'length: at most one driver read and one driver write in flight; the values started at the driver are the submitted '
     'values minus exactly the tickets failed with QueueFull, in submission order; a ticket fails only when `cap` tickets '
-    'are queued and it is the oldest; no ticket is lost or duplicated and submitters are told QueueFull exactly for dropped '
-    'tickets. Tied to the code by trace acceptance: events logged from the real code under generated and exhaustively '
+    'are queued and it is the oldest; no ticket is lost or duplicated; a caller cancelled while waiting in the read guard '
+    'leaves the read in flight untouched; what transform_and_write_value / patch_port_value give back to the API request, the '
+    'expression evaluation or the sequence step is QueueFull exactly for dropped tickets and OK only for values started at the '
+    'driver. Tied to the code by trace acceptance: events logged from the real code under generated and exhaustively '
     'enumerated schedules on a virtual clock are replayed through the Coq step function and judged by the Coq trace '
     'specification.'
 )
